@@ -25,6 +25,8 @@ def num(v):
 def alpha_str(e):
     if e == -1:
         return "0"
+    if e < -1:   # deliberately out of range: SVG clamps opacities to [0, 1]
+        return {-2: "1.5", -3: "-0.25", -4: "2"}[e]
     return num(2.0 ** -e)
 
 
@@ -134,6 +136,19 @@ def concretise(doc, noise=None):
         nxt = nodes[i + 1]["d"] if i + 1 < len(nodes) else 0
         tag = nd["tag"]
         txt = nd.get("text")
+        if tag in ("linearGradient", "radialGradient"):
+            if nd.get("ref"):
+                extra.append(("xlink:href", "#" + nd["ref"]))
+            txt = "".join('<stop offset="%s" stop-color="%s"/>' % (num(o / 100), c) for o, c in nd["g"])
+        elif tag == "foreign":
+            tag = "foo:bar"
+            extra.append(("xmlns:foo", "http://example.com/foo"))
+        elif tag == "text":
+            txt = "hello"
+        elif tag == "style":
+            txt = ".a{fill:red}"
+        elif tag in ("title", "desc"):
+            txt = "some words"
         if nxt > nd["d"] or txt:
             out.append("<%s%s>%s" % (tag, attrs_xml(nd["at"], extra), txt or ""))
             stack.append((nd["d"], tag))
@@ -371,3 +386,75 @@ def generate_docs(focus, n, seedval, wd, max_nodes=6, max_depth=4, cfg_extra="")
     finally:
         os.unlink(path)
     return docs, res_all
+
+
+# ------------------------------------------------------------- structural projection (C01/C08)
+_URL = re.compile(r"^url\(#([^)]*)\)$")
+
+
+def structure(svg_text):
+    """output text -> flat pre-order node list with raw lexemes (for PicoGrammar.tla)."""
+    parser = etree.XMLParser(remove_comments=False, remove_pis=False, resolve_entities=False)
+    root = etree.fromstring(svg_text.encode("utf-8"), parser)
+    nodes = []
+    nrefs = [0]
+
+    def text_node(depth, s):
+        if s and s.strip():
+            nodes.append({"d": depth, "k": "text", "ns": "svg", "tag": "#text", "at": [], "toks": [],
+                          "fillref": []})
+
+    def walk(el, depth):
+        if el.tag is etree.Comment:
+            nodes.append({"d": depth, "k": "comment", "ns": "svg", "tag": "#comment", "at": [],
+                          "toks": [], "fillref": []})
+            return
+        if el.tag is etree.ProcessingInstruction or not isinstance(el.tag, str):
+            nodes.append({"d": depth, "k": "pi", "ns": "svg", "tag": "#pi", "at": [], "toks": [],
+                          "fillref": []})
+            return
+        q = etree.QName(el.tag)
+        at = []
+        for name, val in el.attrib.items():
+            qa = etree.QName(name)
+            pref = ""
+            if qa.namespace:
+                pref = "xlink" if qa.namespace == XLINK else "foreign"
+            at.append([(pref + ":" if pref else "") + qa.localname, list(val), pref])
+        toks = []
+        if q.localname == "path" and "d" in el.attrib:
+            try:
+                for c, lex in raw_tokens(el.attrib["d"]):
+                    toks.append([c, [list(x) for x in lex]])
+            except ValueError:
+                toks = [["?", []]]
+        fillref = []
+        m = _URL.match(el.attrib.get("fill", "").strip())
+        if m:
+            fillref = list(m.group(1))
+            nrefs[0] += 1
+        nodes.append({"d": depth, "k": "el", "ns": "svg" if q.namespace == SVGNS else "other",
+                      "tag": q.localname, "at": at, "toks": toks, "fillref": fillref})
+        text_node(depth + 1, el.text)
+        for ch in el:
+            walk(ch, depth + 1)
+            text_node(depth + 1, ch.tail)
+
+    walk(root, 0)
+    return {"nodes": nodes}, nrefs[0]
+
+
+_RAW = re.compile(r"([A-Za-df-z])|([^A-Za-df-z\s,]+)")
+
+
+def raw_tokens(d):
+    """path data -> [(letter, [lexeme strings])] without interpreting the lexemes."""
+    cmds = []
+    for m in _RAW.finditer(d):
+        if m.group(1):
+            cmds.append((m.group(1), []))
+        else:
+            if not cmds:
+                raise ValueError("number before command")
+            cmds[-1][1].append(m.group(2))
+    return cmds
